@@ -16,8 +16,7 @@ def main():
         m = importlib.import_module("props." + p)
         mods[p] = m
         for f in getattr(m, "FLAVOURS", ["asan"]):
-            if f != "shar":          # the TSan/sharable flavour is built lazily by C30 only
-                flavours.add(f)
+            flavours.add(f)
     for f in sorted(flavours):
         C.build_lib(f)
     # translators that write coq/gen/*.v must run before the Makefile is generated
